@@ -49,8 +49,8 @@ type vfMsgDesc struct {
 }
 
 func (d *vfMsgDesc) FullName() protoreflect.FullName          { return d.name }
-func (d *vfMsgDesc) Fields() protoreflect.FieldDescriptors     { return d.fields }
-func (d *vfMsgDesc) IsMapEntry() bool                          { return d.name != "t.M" }
+func (d *vfMsgDesc) Fields() protoreflect.FieldDescriptors    { return d.fields }
+func (d *vfMsgDesc) IsMapEntry() bool                         { return d.name != "t.M" }
 func (d *vfMsgDesc) ProtoType(protoreflect.MessageDescriptor) {}
 
 type vfField struct {
@@ -66,14 +66,14 @@ type vfField struct {
 	parent protoreflect.FullName
 }
 
-func (f *vfField) Name() protoreflect.Name         { return f.name }
-func (f *vfField) TextName() string                { return string(f.name) }
-func (f *vfField) FullName() protoreflect.FullName { return f.parent.Append(f.name) }
+func (f *vfField) Name() protoreflect.Name          { return f.name }
+func (f *vfField) TextName() string                 { return string(f.name) }
+func (f *vfField) FullName() protoreflect.FullName  { return f.parent.Append(f.name) }
 func (f *vfField) Number() protoreflect.FieldNumber { return f.num }
-func (f *vfField) Kind() protoreflect.Kind         { return f.kind }
-func (f *vfField) IsList() bool                    { return f.list }
-func (f *vfField) IsMap() bool                     { return f.mapf }
-func (f *vfField) IsExtension() bool               { return false }
+func (f *vfField) Kind() protoreflect.Kind          { return f.kind }
+func (f *vfField) IsList() bool                     { return f.list }
+func (f *vfField) IsMap() bool                      { return f.mapf }
+func (f *vfField) IsExtension() bool                { return false }
 func (f *vfField) Cardinality() protoreflect.Cardinality {
 	if f.list || f.mapf {
 		return protoreflect.Repeated
@@ -138,22 +138,22 @@ func verifSchema(keyKind protoreflect.Kind) *vfMsgDesc {
 
 type vfMsg struct {
 	protoreflect.Message
-	md *vfMsgDesc
-	s  string
-	m  *vfMsg
+	md   *vfMsgDesc
+	s    string
+	m    *vfMsg
 	hasM bool // unset: Get returns an empty message, as the real implementation does
-	rs *vfList
-	rm *vfList
-	mm *vfMap
-	ms *vfMap
+	rs   *vfList
+	rm   *vfList
+	mm   *vfMap
+	ms   *vfMap
 }
 
 var _ proto.Message = (*vfMsg)(nil)
 
-func (m *vfMsg) ProtoReflect() protoreflect.Message       { return m }
+func (m *vfMsg) ProtoReflect() protoreflect.Message         { return m }
 func (m *vfMsg) Descriptor() protoreflect.MessageDescriptor { return m.md }
-func (m *vfMsg) Interface() protoreflect.ProtoMessage     { return m }
-func (m *vfMsg) IsValid() bool                            { return true }
+func (m *vfMsg) Interface() protoreflect.ProtoMessage       { return m }
+func (m *vfMsg) IsValid() bool                              { return true }
 
 func (m *vfMsg) sub() *vfMsg {
 	if m.m == nil || !m.hasM {
